@@ -36,19 +36,34 @@ Proof. exact croutes_conv_stepwise. Qed.
 Print Assumptions C01_cisco_routes_converge_stepwise.
 
 (* "equivalent to the target up to generated object names", for the oracle of the tunnel-group / user model
-   (Cisco/Tunnel.v): renaming the group-policies injectively (e.g. NAME -> NAME-DRC-0), together with the references
-   to them, changes neither the semantics nor the verdict of the oracle; the premise (every reference names an
-   existing group-policy) is decidable and holds in every state the strict device accepts a reference in
-   (Cisco/TunnelProofs.v tsub_reference_exists). *)
+   (Cisco/Tunnel.v): renaming ACLs, address pools and group-policies injectively (e.g. NAME -> NAME-DRC-0), together
+   with the references to them, changes neither the semantics nor the verdict of the oracle, provided every reference
+   names an existing object (decidable: refs_knownb) ... *)
 From Coq Require Import String.
-From NA Require Import Cisco.Tunnel Cisco.TunnelNames.
-Theorem C01_tunnel_oracle_independent_of_group_policy_names :
-  forall (rho : string -> string), (forall a b, rho a = rho b -> a = b) ->
-  forall d t, gps_knownb d = true ->
-    tsem (rename_gps rho d) = tsem d /\ tequiv (rename_gps rho d) t = tequiv d t.
+From NA Require Import Cisco.Vpn Cisco.Tunnel Cisco.TunnelNames Cisco.TunnelKnown.
+Theorem C01_tunnel_oracle_independent_of_generated_names :
+  forall (ra rp rg : string -> string),
+  (forall a b, ra a = ra b -> a = b) -> (forall a b, rp a = rp b -> a = b) -> (forall a b, rg a = rg b -> a = b) ->
+  forall d t, refs_knownb d = true ->
+    tsem (rename_all ra rp rg d) = tsem d /\ tequiv (rename_all ra rp rg d) t = tequiv d t.
 Proof.
-  intros rho inj d t K. apply gps_knownb_sound in K. split.
-  - exact (tsem_independent_of_group_policy_names rho inj d K).
-  - exact (tequiv_up_to_group_policy_names rho inj d t K).
+  intros ra rp rg ia ip ig d t K. apply refs_knownb_sound in K. split.
+  - exact (tsem_independent_of_names ra rp rg ia ip ig d K).
+  - exact (tequiv_up_to_names ra rp rg ia ip ig d t K).
 Qed.
-Print Assumptions C01_tunnel_oracle_independent_of_group_policy_names.
+Print Assumptions C01_tunnel_oracle_independent_of_generated_names.
+
+(* ... and the strict device keeps that premise: in every state an accepted script passes through, starting from a
+   device whose references all name existing objects, every reference names an existing object; so the verdict of
+   the oracle on the result of any accepted script does not depend on the names of these objects. *)
+Theorem C01_tunnel_accepted_script_result_independent_of_generated_names :
+  forall (ra rp rg : string -> string),
+  (forall a b, ra a = ra b -> a = b) -> (forall a b, rp a = rp b -> a = b) -> (forall a b, rg a = rg b -> a = b) ->
+  forall d cs d' t, refs_knownb d = true -> trun d cs 0 = (d', 0, 0) ->
+    refs_known d' /\ tsem (rename_all ra rp rg d') = tsem d' /\ tequiv (rename_all ra rp rg d') t = tequiv d' t.
+Proof.
+  intros ra rp rg ia ip ig d cs d' t K H. apply refs_knownb_sound in K. split.
+  - exact (accepted_script_keeps_known cs d 0 d' K H).
+  - exact (oracle_after_accepted_script_independent_of_names ra rp rg ia ip ig d cs d' t K H).
+Qed.
+Print Assumptions C01_tunnel_accepted_script_result_independent_of_generated_names.
